@@ -116,6 +116,28 @@ def compare_with_reference(run, got, ref, witness, what):
             run.violation("launch_planned_count_wrong", f"{what}: planned_run_count {s.get('planned_run_count')} vs {l['planned_run_count']}", dict(witness, got=g))
 
 
+def rollup_consistency(run, got, records, witness, what) -> None:
+    """For ANY record set: a launch's roll-up (runs_total, runs_by_status) equals the counts of the verdicts the same
+    aggregate gives to the runs whose pipeline_start links them to that launch attempt."""
+    link = {}
+    for r in records:
+        if r.get("record_type") == "pipeline_start" and r.get("run_space_launch_id") is not None:
+            link[r["run_id"]] = f"{r['run_space_launch_id']}#{r.get('run_space_attempt')}"
+    for key, g in got["launches"].items():
+        mine = [rid for rid, k in link.items() if k == key]
+        counts = {"complete": 0, "partial": 0, "invalid": 0}
+        for rid in mine:
+            st = (got["runs"].get(rid) or {}).get("status")
+            if st in counts:
+                counts[st] += 1
+        s_ = g.get("summary", {})
+        run.count("rollup_consistency_checked")
+        if s_.get("runs_total") != len(mine) or s_.get("runs_by_status") != counts:
+            run.violation("launch_rollup_differs_from_its_runs_verdicts",
+                          f"{what}: roll-up {s_.get('runs_total')}/{s_.get('runs_by_status')} but the same aggregate gives its {len(mine)} runs the verdicts {counts} "
+                          f"(launch status {g.get('status')}, problems {g.get('problems')})", dict(witness, got=g))
+
+
 def kway(files_records: list, rng) -> list:
     """Random interleaving preserving each file's own order."""
     idx = [0] * len(files_records)
@@ -170,6 +192,17 @@ def exercise(run, records, files_records, label, rng):
                           f"{label}: an aggregator finalised after every record gives a different verdict at record {k} than a fresh aggregator fed the same {k} records (field {field})",
                           dict(witness, prefix=k))
             break
+    # ---- crash points of OTHER file orders (directory mode: a reader may meet the per-run files before the run-space
+    # file): every prefix of a k-way interleaving is a union of per-file prefixes
+    if len(files_records) > 1:
+        for w in range(4):
+            inter = kway(files_records, rng) if w else [r for recs in sorted(files_records, key=lambda f: f[0].get("record_type", "").startswith("run_space")) for r in recs]
+            for k in range(1, len(inter) + 1):
+                gotk, _ = verdicts(inter[:k], None)
+                gotk.pop("finalize_launch_differs_from_finalize_all", None)
+                run.count("aggregator_runs")
+                run.count("kway_prefixes_checked")
+                rollup_consistency(run, gotk, inter[:k], dict(witness, prefix=k, file_order=w), f"{label} file-order {w} prefix {k}/{len(inter)}")
     # ---- order independence on the full set and on subsets
     sets = [("full", records)]
     for _ in range(30):
@@ -198,6 +231,7 @@ def exercise(run, records, files_records, label, rng):
             run.count(f"orders_{oname}")
             if got != got2:
                 run.violation("finalize_twice_differs", f"{label}: finalising twice differs ({kind}, {oname})", witness)
+            rollup_consistency(run, got, order, dict(witness, kind=kind, order=oname), f"{label} ({kind}, {oname})")
             if json.dumps(got, sort_keys=True, default=str) != json.dumps(base, sort_keys=True, default=str):
                 field = _first_field_diff(base, got)
                 run.violation(f"order_dependent_verdict:{field}", f"{label}: verdict depends on ingestion order ({kind}, {oname}): field {field}",
